@@ -93,6 +93,25 @@ func init() {
 		for i := 0; i < n; i++ {
 			ctx.Precision = uint32(r.pick(precChoices))
 			r.zone = 2
+			if r.coin(6) {
+				// coefficients of hundreds of digits right at a power of ten (every bit length up to ~2700 over a
+				// run), against the same value written with another exponent and its neighbours: adjusted exponents tie
+				k := r.rangeI(20, 800)
+				p10 := pow10(k)
+				neg := r.coin(30)
+				sh := r.rangeI(1, 6)
+				variants := []*apd.Decimal{
+					mkDec(apd.Finite, neg, p10, 0),
+					mkDec(apd.Finite, neg, big.NewInt(1), k),
+					mkDec(apd.Finite, neg, new(big.Int).Add(p10, big.NewInt(1)), 0),
+					mkDec(apd.Finite, neg, new(big.Int).Sub(p10, big.NewInt(1)), 0),
+					mkDec(apd.Finite, neg, new(big.Int).Add(new(big.Int).Mul(p10, pow10(sh)), big.NewInt(5)), -sh),
+					mkDec(apd.Finite, neg, pow10(sh), k-sh),
+				}
+				r.shuffleDecs(variants)
+				emit(runCmp(variants[0], variants[1], variants[2]))
+				continue
+			}
 			a := r.genDec(&ctx, 15)
 			var b, c *apd.Decimal
 			if r.coin(70) {
@@ -112,6 +131,13 @@ func init() {
 		}
 	}
 	replayers["cm"] = func(f []string) { emit(runCmp(decDec(f[1]), decDec(f[2]), decDec(f[3]))) }
+}
+
+func (r *rng) shuffleDecs(v []*apd.Decimal) {
+	for i := len(v) - 1; i > 0; i-- {
+		j := r.intn(i + 1)
+		v[i], v[j] = v[j], v[i]
+	}
 }
 
 var _ = big.NewInt
